@@ -113,6 +113,8 @@ def handleC19 : List String → Option String
   | ["c19.split", origDt, minArea, peaks] => do
     let ps ← (splitList peaks ",").mapM parseSplitPeak
     pure <| showExcept (fun q => s!"{showFrags q.1} {showMask q.2}") (splitPeaksCore (← origDt.toInt?) (← parseRat minArea) ps)
+  | ["c19.lmsplit", w, mh, mr] => do
+    pure s!"ok {showInts (localMinimumYields (← parseRats w) (← parseRat mh) (← parseRat mr))}"
   | ["c19.sma", a, w] => do
     pure s!"ok {showRats (symmetricMovingAverage (← parseRats a) (← w.toNat?))}"
   | ["c19.smaold", dropZero, clamp, a, w] => do
